@@ -17,10 +17,15 @@ extern "C" void harness() {
   Circuit c(1);
   int cw = __verif_nondet_int(0, 4096); int ch = __verif_nondet_int(0, 4096);
   c.setCellWidth({cw}); c.setCellHeight({ch});
+  int osel = __verif_choice(3);                       // N, W (turned), FE (turned and flipped): the centre refers to the PLACED size
+  CellOrientation o = osel == 0 ? CellOrientation::N : (osel == 1 ? CellOrientation::W : CellOrientation::FE);
+  c.setCellOrientation({o});
+  int pw = osel == 0 ? cw : ch, ph = osel == 0 ? ch : cw;
   float y = __verif_nondet_float(-8000000.0f, 8000000.0f);
   GlobalPlacer::exportPlacement(c, r, std::vector<float>(1, y));
-  double wantX = (double)r[0] - 0.5 * cw, wantY = (double)y - 0.5 * ch;
-  VASSERT((double)c.x(0) - wantX <= 1.5 && wantX - (double)c.x(0) <= 1.5, "exported x is the blend minus half the width, rounded");
-  VASSERT((double)c.y(0) - wantY <= 1.5 && wantY - (double)c.y(0) <= 1.5, "exported y is the coordinate minus half the height, rounded");
+  double wantX = (double)r[0] - 0.5 * pw, wantY = (double)y - 0.5 * ph;
+  VASSERT((double)c.x(0) - wantX <= 1.5 && wantX - (double)c.x(0) <= 1.5, "exported x is the blend minus half the placed width, rounded");
+  VASSERT((double)c.y(0) - wantY <= 1.5 && wantY - (double)c.y(0) <= 1.5, "exported y is the coordinate minus half the placed height, rounded");
+  VASSERT(c.placedWidth(0) == pw && c.placedHeight(0) == ph, "placed size follows the orientation");
   __verif_cover("end");
 }
